@@ -217,6 +217,8 @@ def extra_checks(pid, tier, seed):
         return _percall_failures(pid, tier, seed)
     if pid == "C09":
         return _constructor_rejections()
+    if pid in ("C06", "C07", "C14"):
+        return _absorbing_workers(pid)
     if pid == "C15":
         return _negative_sizes()
     if pid != "C11":
@@ -483,6 +485,97 @@ def _noninterference(tier, seed):
                           "round": k, "simple_a": simple_a, "simple_b": simple_b, "ops_a": ops_a, "ops_b": ops_b,
                           "first_difference": {"index": i, "alone": repr(solo[i:i + 2]), "with_other_pool": repr(duo[i:i + 2])}})
             break
+    return fails
+
+
+def _absorbing_workers(pid):
+    """C06 / C07 / C14 for a kind of worker the label domain does not contain (the model's workers
+    end when a cancellation reaches them): a worker that *absorbs* its first cancellations - a
+    graceful-shutdown loop: the first request means "finish the batch", the next one "stop" - is
+    still running in the pool, so every later cancel(id) / cancel_group / stop naming it must
+    reach it again.  Checked directly on the implementation: each request is delivered as one
+    CancelledError, in order, until the worker gives in; the bookkeeping follows."""
+    import asyncio
+    import lockstep
+    lockstep._init_worker()
+    from asyncio_taskpool.pool import SimpleTaskPool, TaskPool
+    fails = []
+
+    async def go(absorb, how):
+        seen, cbs = [], []
+
+        async def worker(n):
+            k = 0
+            while True:
+                try:
+                    await asyncio.sleep(3600)
+                except asyncio.CancelledError:
+                    k += 1
+                    seen.append(k)
+                    if k > n:
+                        raise
+
+        def ccb(i):
+            cbs.append(("c", i))
+
+        def ecb(i):
+            cbs.append(("e", i))
+        simple = how in ("stop", "stop_all")
+        if simple:
+            pool = SimpleTaskPool(worker, args=(absorb,), cancel_callback=ccb, end_callback=ecb, pool_size=2)
+            g = pool.start(1)
+        else:
+            pool = TaskPool(pool_size=2)
+            g = pool.apply(worker, args=(absorb,), cancel_callback=ccb, end_callback=ecb)
+        for _ in range(4):
+            await asyncio.sleep(0)
+        for r in range(absorb + 1):
+            if pool.num_running != 1:
+                fails.append({"what": "a worker that absorbed a cancellation and goes on is no longer counted "
+                                      "as running", "how": how, "round": r, "num_running": pool.num_running})
+                return
+            try:
+                if how == "cancel":
+                    pool.cancel(0)
+                elif how == "cancel_group":
+                    # the group is forgotten by the first cancel_group; afterwards the task is
+                    # reachable by its id only
+                    pool.cancel_group(g) if r == 0 else pool.cancel(0)
+                elif how == "cancel_all":
+                    pool.cancel_all() if r == 0 else pool.cancel(0)
+                elif how == "stop":
+                    ids = pool.stop(1)
+                    if ids != [0]:
+                        fails.append({"what": "stop(1) did not return the running task", "round": r, "ids": ids})
+                        return
+                else:
+                    ids = pool.stop_all()
+                    if ids != [0]:
+                        fails.append({"what": "stop_all() did not return the running task", "round": r, "ids": ids})
+                        return
+            except Exception as e:  # noqa: BLE001
+                fails.append({"what": "cancelling a running (absorbing) worker again raised", "how": how,
+                              "round": r, "error": repr(e)})
+                return
+            for _ in range(4):
+                await asyncio.sleep(0)
+            if seen != list(range(1, r + 2)):
+                fails.append({"what": "a cancellation request for a running task was not delivered to it "
+                                      "(the worker had absorbed an earlier one and kept running)",
+                              "how": how, "request_no": r + 1, "delivered": list(seen)})
+                return
+        if cbs != [("c", 0), ("e", 0)] or pool.num_running != 0 or pool.num_ended != 1:
+            fails.append({"what": "after its last cancellation the absorbing worker must end cancelled: cancel "
+                                  "callback, end callback, counted as ended", "how": how, "callbacks": cbs,
+                          "num_running": pool.num_running, "num_ended": pool.num_ended})
+        await pool.flush(return_exceptions=True)
+
+    hows = {"C06": ["cancel"], "C07": ["cancel_group", "cancel_all"], "C14": ["stop", "stop_all"]}[pid]
+    for how in hows:
+        for absorb in (1, 2):
+            asyncio.run(go(absorb, how))
+            if fails:
+                return fails
     return fails
 
 
